@@ -7,6 +7,7 @@ import (
 	"github.com/go-i2p/common/data"
 	"github.com/go-i2p/common/destination"
 	"github.com/go-i2p/common/encrypted_leaseset"
+	"github.com/go-i2p/common/key_certificate"
 	"github.com/go-i2p/common/lease"
 	"github.com/go-i2p/common/lease_set"
 	"github.com/go-i2p/common/lease_set2"
@@ -227,6 +228,15 @@ func constructWithValue(sh *engine.Shape) (*constructed, any, error) {
 		if err != nil {
 			c.skipped = "no signing key"
 			return c, val, nil
+		}
+		if sh.Seed%2 == 0 {
+			// the LeaseSet's own signing_key field is a revocation key: any key
+			// of the Destination's type is admissible, it need not be the
+			// Destination's key
+			other := refmodel.NewSignKey(sh.Seed|1<<40, id.Sig)
+			if ok, kerr := key_certificate.ConstructSigningPublicKeyByType(other.Pub, id.Sig); kerr == nil && ok != nil {
+				rk = ok
+			}
 		}
 		var ls []lease.Lease
 		for i := 0; i < sh.N; i++ {
